@@ -114,6 +114,14 @@ Proof. induction reg as [|[k e] reg IH]; cbn; [reflexivity|]. destruct (k =? d);
 (* after MsgDeregister the gate refuses the denom, after MsgRegister it follows the new entry *)
 Theorem gate_after_deregister reg d amt : transfer_gate (remove_token d reg) d amt = false.
 Proof. unfold transfer_gate. rewrite reg_lookup_is_lookup, lookup_remove_same. reflexivity. Qed.
+(* after MsgSetRegistry every lookup and the gate follow the list of the message alone: a denom it does not list is unknown *)
+Lemma set_registry_takes_effect (new old : list (Z * reg_entry_x)) :
+  (forall d, lookup d (set_registry new old) = lookup d new) /\ (forall d amt, transfer_gate (set_registry new old) d amt = transfer_gate new d amt) /\
+  (forall d amt, lookup d new = None -> transfer_gate (set_registry new old) d amt = false).
+Proof.
+  unfold set_registry. split; [reflexivity|split; [reflexivity|]].
+  intros d amt Hn. unfold transfer_gate. rewrite reg_lookup_is_lookup, Hn. reflexivity.
+Qed.
 Theorem gate_after_register reg d e amt :
   transfer_gate (set_token d e reg) d amt = negb (re_alias e) && has_perm (re_bits e) PERM_IBCEXPORT && (0 <? amt).
 Proof. unfold transfer_gate. rewrite reg_lookup_is_lookup, lookup_set_same. reflexivity. Qed.
